@@ -1498,6 +1498,16 @@ fn large_par_cases(ctx: &mut Ctx) {
             "apar_reset".to_string(),
             format!("get {}", len + 2),
             format!("get {}", len - 1),
+            // stale elements beyond the length in the boundary word (and after it): the parallel
+            // resets must leave them alone (frame check of every op)
+            format!("resize {} {}", len + 70, v),
+            format!("resize {} {}", len, v),
+            "apar_reset".to_string(),
+            format!("get {}", len - 1),
+            format!("resize {} {}", len + 70, v),
+            format!("resize {} {}", len, v),
+            "par_reset".to_string(),
+            "eq".to_string(),
         ] {
             exec(ctx, &mut s, &o);
         }
